@@ -52,6 +52,8 @@ func (o rsOp) String() string {
 		return fmt.Sprintf("peek(%d)", o.n)
 	case 4:
 		return fmt.Sprintf("cancel(%d)", o.code)
+	case 6:
+		return fmt.Sprintf("frame-straddling-readpos(-%d,+%d)", o.off, o.n)
 	}
 	return "shutdown"
 }
@@ -152,8 +154,17 @@ func rsRun(w *bufio.Writer, window int64, ops []rsOp) (term string, nontrivial b
 			monfail(what+"-beyond-received", fmt.Sprintf("%s delivered bytes up to %d but only %d were received", what, delivered+int64(len(d)), refHighest))
 		}
 	}
-	for idx, op := range ops {
+	for idx := 0; idx < len(ops); idx++ {
+		op := ops[idx]
 		stop := false
+		if op.kind == 6 { // retransmission with other boundaries: starts below the read position, ends above it
+			a := delivered - op.off
+			if a < 0 {
+				a = 0
+			}
+			op = rsOp{kind: 0, off: a, n: delivered - a + op.n}
+			ops[idx] = op
+		}
 		switch op.kind {
 		case 0:
 			f := wire.VerifPooledStreamFrame(int(op.n))
@@ -364,6 +375,8 @@ func rsGen(r *u.Rng) (int64, []rsOp) {
 				op = rsOp{kind: 0, off: total - 1, n: int64(r.Range(2, 5))} // beyond the end
 			}
 			ops = append(ops, op)
+		case k < 52+6:
+			ops = append(ops, rsOp{kind: 6, off: r.Pick(1, 3, 43, 64, 130), n: r.Pick(1, 4, 64, 129, 300)})
 		case k < 76:
 			ops = append(ops, rsOp{kind: 2, n: r.Pick(0, 1, 5, 64, 127, 200, 1000, 5000)})
 		case k < 86:
@@ -472,6 +485,8 @@ func (o csOp) String() string {
 		return "get"
 	case 3:
 		return fmt.Sprintf("crypto-at-highest%+d(len %d)", o.off, o.n)
+	case 4:
+		return fmt.Sprintf("crypto-straddling-readpos(-%d,+%d)", o.off, o.n)
 	}
 	return "finish"
 }
@@ -513,18 +528,26 @@ func runCryptoStream(w *bufio.Writer, seed uint64, n int, _ []string) {
 					off = maxOff - ln + int64(cr.Intn(3)) - 1 // limit-1, limit, limit+1
 				}
 				ops = append(ops, csOp{kind: 0, off: off, n: ln})
-			case k < 80:
+			case k < 76:
 				ops = append(ops, csOp{kind: 1})
-			case k < 88: // a frame that ends at the highest offset received so far -1 / +0 / +1 (resolved when run)
+			case k < 83: // a frame that ends at the highest offset received so far -1 / +0 / +1 (resolved when run)
 				ops = append(ops, csOp{kind: 3, off: int64(cr.Intn(3)) - 1, n: cr.Pick(1, 4, 64, 129)})
+			case k < 92: // a retransmission with other boundaries that straddles the read position:
+				// starts off bytes below what GetCryptoData has already returned, ends n bytes above (resolved when run)
+				ops = append(ops, csOp{kind: 4, off: cr.Pick(1, 3, 43, 64, 130), n: cr.Pick(1, 4, 64, 129, 300)})
 			default:
 				ops = append(ops, csOp{kind: 2})
 			}
 		}
+		// like connection.handleCryptoFrame: drain GetCryptoData after every frame (half of the cases)
+		drainAfterFrame := cr.Chance(1, 2)
 		opsString := func() string {
 			s := make([]string, len(ops))
 			for i, o := range ops {
 				s[i] = o.String()
+			}
+			if drainAfterFrame {
+				return "(GetCryptoData until empty after every frame) " + strings.Join(s, " ")
 			}
 			return strings.Join(s, " ")
 		}
@@ -540,8 +563,57 @@ func runCryptoStream(w *bufio.Writer, seed uint64, n int, _ []string) {
 			var delivered, highest int64
 			finished := false
 			gotData := false
-			for oi, op := range ops {
+			covered := map[int64]bool{} // reference: bytes of frames that were accepted before Finish
+			undelivered := func() bool { // some received byte at or above the read position has not been returned yet
+				for x := range covered {
+					if x >= delivered {
+						return true
+					}
+				}
+				return false
+			}
+			// get: one GetCryptoData with the byte-array reference monitors
+			get := func() int {
+				d := cs.GetCryptoData()
+				for i := range d {
+					if d[i] != c03Byte(delivered+int64(i)) {
+						monfail("bytes", fmt.Sprintf("GetCryptoData at %d: byte +%d differs from what was sent", delivered, i))
+						break
+					}
+					if !covered[delivered+int64(i)] {
+						monfail("bytes", fmt.Sprintf("GetCryptoData at %d: byte +%d was never received", delivered, i))
+						break
+					}
+				}
+				if delivered+int64(len(d)) > highest {
+					monfail("bytes", "GetCryptoData delivered bytes that were never received")
+				}
+				if len(d) == 0 && covered[delivered] {
+					monfail("lost", fmt.Sprintf("GetCryptoData returns nothing at offset %d although that byte was received: received CRYPTO data is never delivered", delivered))
+				}
+				items = append(items, u.Pair("CGet", u.App("COut", "0", u.Z(int64(len(d))), u.Z(c03Hash(d)))))
+				delivered += int64(len(d))
+				if len(d) > 0 {
+					gotData = true
+				}
+				return len(d)
+			}
+			stopped := false
+			for oi := 0; oi < len(ops); oi++ {
+				op := ops[oi]
 				stop := false
+				if op.kind == 4 {
+					if delivered == 0 {
+						op = csOp{kind: 0, off: 0, n: op.n}
+					} else {
+						a := delivered - op.off
+						if a < 0 {
+							a = 0
+						}
+						op = csOp{kind: 0, off: a, n: delivered - a + op.n}
+					}
+					ops[oi] = op
+				}
 				if op.kind == 3 {
 					end := highest + op.off
 					if end-op.n < 0 || end <= 0 {
@@ -565,34 +637,35 @@ func runCryptoStream(w *bufio.Writer, seed uint64, n int, _ []string) {
 					if cls != want {
 						monfail("reject", fmt.Sprintf("crypto frame [%d,+%d): error class %d, expected %d (1 CRYPTO_BUFFER_EXCEEDED, 2 PROTOCOL_VIOLATION)", op.off, op.n, cls, want))
 					}
-					if cls == 0 && !finished && end > highest {
-						highest = end
+					if cls == 0 && !finished {
+						if end > highest {
+							highest = end
+						}
+						for x := op.off; x < end; x++ {
+							covered[x] = true
+						}
 					}
 					if cls != 0 {
 						stop = true
 					}
 					items = append(items, u.Pair(u.App("CFrame", u.Z(op.off), u.Z(op.n)), u.App("COut", u.Z(cls), "0", "0")))
-				case 1:
-					d := cs.GetCryptoData()
-					for i := range d {
-						if d[i] != c03Byte(delivered+int64(i)) {
-							monfail("bytes", fmt.Sprintf("GetCryptoData at %d: byte +%d differs from what was sent", delivered, i))
-							break
+					if cls == 0 && drainAfterFrame {
+						for get() > 0 {
 						}
 					}
-					if delivered+int64(len(d)) > highest {
-						monfail("bytes", "GetCryptoData delivered bytes that were never received")
-					}
-					items = append(items, u.Pair("CGet", u.App("COut", "0", u.Z(int64(len(d))), u.Z(c03Hash(d)))))
-					delivered += int64(len(d))
-					if len(d) > 0 {
-						gotData = true
-					}
+				case 1:
+					get()
 				case 2:
 					cls := cs.Finish()
 					queued := len(cs.Queued()) > 0
 					if (cls == 2) != queued {
 						monfail("finish", fmt.Sprintf("Finish returned class %d with data queued = %v", cls, queued))
+					}
+					if cls == 0 && undelivered() {
+						monfail("lost", fmt.Sprintf("Finish succeeded although CRYPTO data received at or above offset %d was never delivered", delivered))
+					}
+					if cls == 2 && !undelivered() {
+						monfail("finish", "Finish failed although every received byte was delivered")
 					}
 					if cls == 0 {
 						finished = true
@@ -607,7 +680,19 @@ func runCryptoStream(w *bufio.Writer, seed uint64, n int, _ []string) {
 					}
 				}
 				if stop {
+					stopped = true
 					break
+				}
+			}
+			// drain: after all frames have been handled, GetCryptoData must yield exactly the received prefix
+			if !stopped {
+				for get() > 0 {
+				}
+				for x := int64(0); x < delivered; x++ {
+					if !covered[x] {
+						monfail("bytes", fmt.Sprintf("drained %d bytes but byte %d was never received", delivered, x))
+						break
+					}
 				}
 			}
 			k := 0
@@ -654,6 +739,7 @@ func runC03CryptoMgr(w *bufio.Writer, seed uint64, n int, _ []string) {
 			m := quic.C03VerifNewCryptoMgr(cr.Bool())
 			var delivered, highest [3]int64
 			var finished [3]bool
+			covered := [3]map[int64]bool{{}, {}, {}}
 			bounds := []int64{0}
 			for j := 0; j < 5; j++ {
 				bounds = append(bounds, bounds[len(bounds)-1]+c03CellSizes[cr.Intn(7)])
@@ -672,6 +758,11 @@ func runC03CryptoMgr(w *bufio.Writer, seed uint64, n int, _ []string) {
 					}
 					b := cr.Range(a+1, min(5, a+3))
 					off, ln := bounds[a], bounds[b]-bounds[a]
+					if l < 3 && delivered[l] > 0 && cr.Chance(1, 5) { // straddles this level's read position
+						dl := cr.Pick(1, 3, 43, 64)
+						off = max(delivered[l]-dl, 0)
+						ln = delivered[l] - off + cr.Pick(1, 4, 64, 129)
+					}
 					desc = append(desc, fmt.Sprintf("crypto@%d[%d,+%d)", l, off, ln))
 					data := make([]byte, ln)
 					for x := range data {
@@ -687,8 +778,13 @@ func runC03CryptoMgr(w *bufio.Writer, seed uint64, n int, _ []string) {
 					if cls != want {
 						monfail("reject", fmt.Sprintf("CRYPTO frame at level %d: error class %d, expected %d", l, cls, want))
 					}
-					if cls == 0 && l < 3 && !finished[l] && off+ln > highest[l] {
-						highest[l] = off + ln
+					if cls == 0 && l < 3 && !finished[l] {
+						if off+ln > highest[l] {
+							highest[l] = off + ln
+						}
+						for x := off; x < off+ln; x++ {
+							covered[l][x] = true
+						}
 					}
 					items = append(items, u.Pair(u.App("MFrame", u.Z(int64(l)), u.Z(off), u.Z(ln)), u.App("COut", u.Z(cls), "0", "0")))
 					if cls != 0 {
@@ -705,6 +801,9 @@ func runC03CryptoMgr(w *bufio.Writer, seed uint64, n int, _ []string) {
 					}
 					if delivered[l]+int64(len(d)) > highest[l] {
 						monfail("bytes", fmt.Sprintf("GetCryptoData(level %d) delivered bytes never received at that level", l))
+					}
+					if len(d) == 0 && covered[l][delivered[l]] {
+						monfail("lost", fmt.Sprintf("GetCryptoData(level %d) returns nothing at offset %d although that byte was received", l, delivered[l]))
 					}
 					delivered[l] += int64(len(d))
 					if len(d) > 0 {
